@@ -30,8 +30,12 @@ func (r *RNG) Float() float64 { return float64(r.Uint64()>>11) / float64(1<<53) 
 
 // Mix derives an independent stream seed from a root seed, an index and a name.
 func Mix(root, idx uint64, stream string) uint64 {
-	h := root ^ 0x51_7c_c1_b7_27_22_0a_95
-	h = (h ^ idx) * 0x9e3779b97f4a7c15
+	// root and idx go through separate avalanche steps: a plain xor of the two
+	// would make seeds that differ in low bits enumerate the same set of cases
+	a := RNG{s: root ^ 0x51_7c_c1_b7_27_22_0a_95}
+	h := a.Uint64()
+	b := RNG{s: h + idx*0xd1342543de82ef95 + 1}
+	h = b.Uint64()
 	for i := 0; i < len(stream); i++ {
 		h = (h ^ uint64(stream[i])) * 0x100000001b3
 	}
